@@ -6,14 +6,17 @@
 (* An aggregate chunk carries up to five sub-chunks (count, sum, min, max, *)
 (* counter = aggregate types 0..4).  Layout: for each type in order, a     *)
 (* length L; if L = 0 the aggregate is absent and nothing follows; else    *)
-(* one encoding byte and L data bytes follow.  Lengths are uvarints in the *)
-(* code; here a length is one token (the model's lengths are < 128, where  *)
-(* a uvarint is one byte as well).                                         *)
+(* one encoding byte and L data bytes follow.  Lengths are uvarints: base-  *)
+(* 128 digits, least significant first, every digit but the last carrying *)
+(* a continuation flag.  The model keeps that structure with a            *)
+(* configurable Base (the MC configs use a small base so that one- and    *)
+(* two-digit lengths are both enumerated; the trace spec uses 128).       *)
 (*                                                                         *)
 (* Property C39: for any subset of present aggregates, Get(t) returns the  *)
 (* sub-chunk unchanged when present and "not existing" when absent.        *)
 (***************************************************************************)
 EXTENDS Naturals, Sequences, FiniteSets
+CONSTANT Base      \* radix of the variable-length integer encoding (128 in the code)
 
 Types == 0..4
 Null == <<>>                     \* absent aggregate (a present one has >= 1 data byte)
@@ -28,7 +31,18 @@ Expected(chks, t) ==
                         ELSE [kind |-> "notexist"]
 
 (* -------- layout -------- *)
-Entry(c) == IF IsChunk(c) THEN <<Len(c.data)>> \o <<c.enc>> \o c.data ELSE <<0>>
+(* uvarint: a token >= Base is a digit with the continuation flag set *)
+RECURSIVE Uvarint(_)
+Uvarint(n) == IF n < Base THEN <<n>> ELSE <<(n % Base) + Base>> \o Uvarint(n \div Base)
+(* decode from the front of b: [val, n] with n = number of tokens consumed, n = 0 if b ends early *)
+RECURSIVE DecodeFrom(_, _, _, _)
+DecodeFrom(b, k, mul, acc) ==
+    IF k > Len(b) THEN [val |-> 0, n |-> 0]
+    ELSE IF b[k] < Base THEN [val |-> acc + b[k] * mul, n |-> k]
+    ELSE DecodeFrom(b, k + 1, mul * Base, acc + (b[k] - Base) * mul)
+DecodeUvarint(b) == DecodeFrom(b, 1, 1, 0)
+
+Entry(c) == IF IsChunk(c) THEN Uvarint(Len(c.data)) \o <<c.enc>> \o c.data ELSE <<0>>
 RECURSIVE EncodeFrom(_, _)
 EncodeFrom(chks, i) == IF i > 4 THEN <<>> ELSE Entry(chks[i]) \o EncodeFrom(chks, i + 1)
 Encode(chks) == EncodeFrom(chks, 0)
@@ -41,11 +55,13 @@ SubSeqFrom(s, k) == SubSeq(s, k, Len(s))
 RECURSIVE GetLoop(_, _, _, _)
 GetLoop(bb, ii, xx, tt) ==
     IF ii > tt THEN [kind |-> "chunk", enc |-> Head(xx), data |-> Tail(xx)]
-    ELSE IF Len(bb) < 1 THEN [kind |-> "error"]
-    ELSE LET l == Head(bb) IN
-         IF l = 0 THEN (IF ii = tt THEN [kind |-> "notexist"] ELSE GetLoop(Tail(bb), ii + 1, xx, tt))
-         ELSE IF Len(bb) - 1 < l + 1 THEN [kind |-> "error"]
-         ELSE GetLoop(SubSeqFrom(bb, l + 3), ii + 1, SubSeq(bb, 2, l + 2), tt)
+    ELSE LET d == DecodeUvarint(bb) IN
+         IF d.n < 1 THEN [kind |-> "error"]
+         ELSE LET l == d.val
+                  rest == SubSeqFrom(bb, d.n + 1) IN
+              IF l = 0 THEN (IF ii = tt THEN [kind |-> "notexist"] ELSE GetLoop(rest, ii + 1, xx, tt))
+              ELSE IF Len(rest) < l + 1 THEN [kind |-> "error"]
+              ELSE GetLoop(SubSeqFrom(rest, l + 2), ii + 1, SubSeq(rest, 1, l + 1), tt)
 GetAlgo(bytes, tt) == GetLoop(bytes, 0, <<>>, tt)
 
 =============================================================================
